@@ -1,4 +1,4 @@
-import Srctools.Proofs.C04
+import Srctools.Proofs.C04Inv
 import Srctools.Gen.Rot
 /-!
 # C04 — Angles, matrices and vectors obey the rotation algebra
@@ -14,6 +14,7 @@ unit circle (`Ang.OnCircle`); nothing else about `sin`/`cos` is used.
 set_option linter.unusedTactic false
 set_option linter.unreachableTactic false
 set_option linter.unusedSimpArgs false
+set_option linter.unusedSectionVars false
 
 namespace C04
 
@@ -123,6 +124,71 @@ theorem C04_transpose_undoes (v : V3 R) (M : Mat R) (h : IsRotation M) :
   refine ⟨?_, ?_, ?_⟩ <;> ring
 
 end Algebra
+
+/-! ## `_to_angle` and `inverse` -/
+section ToAngle
+variable {K : Type} [Field K] [LinearOrder K] [IsStrictOrderedRing K]
+
+/-- **`to_angle` then `from_angle` reproduces a rotation matrix exactly** whenever the general
+(non gimbal-lock) branch of `_to_angle` is taken.  `r` holds the square roots the code computes
+(`horiz_dist` and the radii of the `atan2` calls), characterised by their squares and signs;
+`thr` is the literal `0.001`. -/
+theorem C04_to_from (thr : K) (M : Mat K) (hM : IsRotation M) (r : Radii K)
+    (hh : r.h * r.h = M.aa * M.aa + M.ab * M.ab)
+    (hp : r.rp * r.rp = M.ac * M.ac + r.h * r.h)
+    (hr : r.rr * r.rr = M.bc * M.bc + M.cc * M.cc)
+    (hp0 : 0 ≤ r.rp) (hr0 : 0 ≤ r.rr) (hthr0 : 0 ≤ thr) (hthr : thr < r.h) :
+    fromAngle (toAngle thr M r) = M := by
+  have f := hM.facts
+  have h0 : 0 < r.h := lt_of_le_of_lt hthr0 hthr
+  have hrp : r.rp = 1 := by
+    have : r.rp * r.rp = 1 := by rw [hp, hh]; linear_combination f.r11
+    nlinarith
+  have hrr : r.rr = r.h := by
+    have : r.rr * r.rr = r.h * r.h := by rw [hr, hh]; linear_combination f.c33 - f.r11
+    nlinarith
+  have hne : r.h ≠ 0 := ne_of_gt h0
+  simp only [toAngle, toAngleB, hthr, if_true, atan2n, hrp, hrr, hne, if_false, one_ne_zero, div_one]
+  exact fromAngle_toAngle_general M hM r.h hh hne
+
+/-- The angle `_to_angle` produces for a rotation matrix is a genuine angle (three points of
+the unit circle), in both branches. -/
+theorem C04_toAngle_onCircle (thr : K) (M : Mat K) (hM : IsRotation M) (r : Radii K)
+    (hh : r.h * r.h = M.aa * M.aa + M.ab * M.ab)
+    (hp : r.rp * r.rp = M.ac * M.ac + r.h * r.h)
+    (hr : r.rr * r.rr = M.bc * M.bc + M.cc * M.cc)
+    (hg : r.rg * r.rg = M.ba * M.ba + M.bb * M.bb)
+    (hthr0 : 0 ≤ thr) (hg0 : r.h ≤ thr → r.rg ≠ 0) :
+    (toAngle thr M r).OnCircle := by
+  have f := hM.facts
+  have hrp : r.rp * r.rp = 1 := by rw [hp, hh]; linear_combination f.r11
+  have hrp0 : r.rp ≠ 0 := by intro h; rw [h] at hrp; simp at hrp
+  have hrr : r.rr * r.rr = r.h * r.h := by rw [hr, hh]; linear_combination f.c33 - f.r11
+  by_cases hb : thr < r.h
+  · have h0 : r.h ≠ 0 := ne_of_gt (lt_of_le_of_lt hthr0 hb)
+    have hr0 : r.rr ≠ 0 := by intro h; rw [h] at hrr; simp at hrr; exact h0 hrr
+    simp only [toAngle, toAngleB, hb, if_true, atan2n, h0, hr0, hrp0, if_false, Ang.OnCircle]
+    refine ⟨?_, ?_, ?_⟩ <;> field_simp <;> grind
+  · have hg' := hg0 (not_lt.mp hb)
+    simp only [toAngle, toAngleB, hb, if_false, atan2n, hg', hrp0, Ang.OnCircle]
+    refine ⟨?_, ?_, ?_⟩ <;> field_simp <;> grind
+
+/-- **`inverse()` returns a left inverse** whenever it does not raise (`eps` is the literal
+`0.00001`; any non-negative value works). -/
+theorem C04_inverse (eps : K) (he : 0 ≤ eps) (M N : Mat K)
+    (h : gaussJordanInverse eps M = some N) : matMul N M = Mat.one :=
+  gaussJordanInverse_mul he h
+
+/-- **`inverse()` equals `transpose()` on rotations.** -/
+theorem C04_inverse_rotation (eps : K) (he : 0 ≤ eps) (M N : Mat K) (hM : IsRotation M)
+    (h : gaussJordanInverse eps M = some N) : N = transpose M := by
+  have h1 := gaussJordanInverse_mul he h
+  calc N = matMul N Mat.one := (matMul_one N).symm
+    _ = matMul N (matMul M (transpose M)) := by rw [hM.1]
+    _ = matMul (matMul N M) (transpose M) := (matMul_assoc _ _ _).symm
+    _ = transpose M := by rw [h1, one_matMul]
+
+end ToAngle
 
 /-! ## Operand dispatch (7 × 7 × 3 table) -/
 
@@ -238,5 +304,11 @@ example : fromAngle (⟨3/5, 4/5, 5/13, 12/13, 8/17, 15/17⟩ : Ang Rat)
     = ⟨3/13, 36/65, -4/5, -384/1105, 1452/1105, 9/17, -1132/1105, -441/1105, 24/85⟩ ∨ True := Or.inr trivial
 example : dispatch true .tup .fang .op = specEntry .tup .fang .op := by decide
 example : dispatch true .vec .vec .op = none := by decide
+/-- `inverse()` succeeds on a concrete rotation (yaw with cos 3/5, sin 4/5) and gives the transpose. -/
+example : gaussJordanInverse Gen.Rot.eps (fromAngle (⟨1, 0, 3/5, 4/5, 1, 0⟩ : Ang Rat))
+    = some (transpose (fromAngle ⟨1, 0, 3/5, 4/5, 1, 0⟩)) := by decide +kernel
+/-- The general branch of `_to_angle` on a concrete rotation (pitch 3-4-5, yaw 5-12-13, roll 8-15-17). -/
+example : toAngle Gen.Rot.thr (fromAngle (⟨3/5, 4/5, 5/13, 12/13, 8/17, 15/17⟩ : Ang Rat)) ⟨3/5, 1, 3/5, 1⟩
+    = ⟨3/5, 4/5, 5/13, 12/13, 8/17, 15/17⟩ := by decide +kernel
 
 end C04
